@@ -162,6 +162,7 @@ def check_pair(case, ctx):
     Q1 = np.array([q1] + [forms["left-multiplied"][0]] * (k - 1))
     Q2 = np.array([q2] + [forms["left-multiplied"][1]] * (k - 1))
     Q2[-1] *= -1.0
+    check_batch_coincident(case, ctx, np.array([q1, q2, g, rq.qmul(g, q1)][:k + 1]))
     for name in BATCH:
         fn = getattr(M, name)
         r = name + "[batch]"
@@ -173,6 +174,22 @@ def check_pair(case, ctx):
             d = np.asarray(out.value)
             if ctx.ok("batch result has one distance per row", d.shape == (k,) and np.isrealobj(d) and bool(np.all(np.isfinite(d))), {"shape": list(d.shape)}, route=r):
                 ctx.le("every row equals the closed form", np.abs(d - CLOSED[name](t)).max(), tol_for(name, t), {"t": t, "d": d}, route=r)
+
+
+def check_batch_coincident(case, ctx, Q1):
+    """N-row inputs whose rows are the same rotation: every distance is 0 (never NaN), also against the negated rows"""
+    from ahrs.utils import metrics as M
+    for name in BATCH:
+        fn = getattr(M, name)
+        r = name + "[batch]"
+        A = np.array([rq.refR(x) for x in Q1]) if name in MATRIX else Q1
+        for lab, B in (("same rows", A.copy()),) + ((("negated rows", -A),) if name not in MATRIX else ()):
+            out = call(lambda: np.asarray(fn(A.copy(), B.copy()), float))
+            if ctx.returned(out, route=r):
+                d = out.value
+                ok = d.shape == (len(Q1),) and bool(np.all(np.isfinite(d)))
+                if ctx.ok("distances between coincident rows are finite numbers", ok, {"d": d, "rows": lab}, route=r):
+                    ctx.le("distance between coincident rows is 0", float(np.abs(d).max()), 1e-7 if name in ("qcip", "qad") else 1e-14, {"rows": lab, "d": d}, route=r)
 
 
 def check_triple(case, ctx):
